@@ -271,6 +271,7 @@ type vf6Run struct {
 	views map[int]*View
 	base  time.Time
 	completions int
+	sub   func(what string, err error) // emits one line per gate step inside "settle"
 }
 
 func vf6Bits(b bitmask.LongBitmask) []uint {
@@ -750,6 +751,9 @@ func (r *vf6Run) doAction(raw json.RawMessage) (act []interface{}, res string, i
 			if err != nil {
 				break
 			}
+			if r.sub != nil {
+				r.sub(what, nil)
+			}
 		}
 		if res == "" {
 			res = "quiescent"
@@ -905,6 +909,22 @@ func vf6RunScenario(t *testing.T, scn *vf6Scenario, emit func(*vf6Line)) {
 	for i, raw := range scn.Actions {
 		t0 := time.Now()
 		line := &vf6Line{Scn: scn.Name, I: i}
+		subn := 0
+		r.sub = func(what string, _ error) {
+			l := &vf6Line{Scn: scn.Name, I: i, Act: []interface{}{"substep", subn}, Res: what}
+			subn++
+			if err := r.settle(); err != nil {
+				l.Res = err.Error()
+				emit(l)
+				return
+			}
+			l.State = r.dumpState()
+			v := mgr.GetView()
+			l.Fresh = r.observeView(&v, scn.Searches)
+			v.Release()
+			r.settle()
+			emit(l)
+		}
 		func() {
 			defer func() {
 				if p := recover(); p != nil {
